@@ -162,3 +162,24 @@ def assume_representable(R, lib, res_sigma, res_cart):
     if len(system) > 2 and system[2] == "tau" and len(c) == 4:
         R.assume(c[3] >= 0)
         R.assume(c[3] * c[3] - c[0] * c[0] - c[1] * c[1] - c[2] * c[2] >= 0)
+
+
+def assume_representable_declared(R, lib, returns, res_cart, operands):
+    """same as assume_representable, from the coordinate types the dispatch_map entry declares;
+    asserted before the variant is executed so that sign case splits inside it can be decided"""
+    if not is_vector(res_cart):
+        return
+    names = [CLS2NAME.get(r) for r in returns]
+    c = spec.cart(lib, res_cart)
+    # pass-through coordinates of lower-dimensional operations keep the operand's types
+    if operands:
+        system, _ = lanes.stored(operands[-1])
+        full = [n for n in names if n]
+        for extra in system[len(full):]:
+            full.append(extra)
+        names = full
+    if "rhophi" in names or "theta" in names or "eta" in names:
+        R.assume((c[0] != 0) | (c[1] != 0))
+    if "tau" in names and len(c) == 4:
+        R.assume(c[3] >= 0)
+        R.assume(c[3] * c[3] - c[0] * c[0] - c[1] * c[1] - c[2] * c[2] >= 0)
